@@ -170,7 +170,89 @@ def warm_policy(shared, k):
         call_select(scr, d, k, [el[-1]], shared=shared)
 
 
-def call_select(screen, desc, k, batch, eligible_hint=(), target=None, shared=None, np_ids=False):
+CLI_LOG = []
+
+
+def install_cli_policy():
+    """the policy class `select_next_plate.main()` finds by introspection: the real policy, recording what it is handed"""
+    import batchie.policies.k_per_sample as mod
+    if getattr(mod, "VerifRecKPerSample", None) is None:
+        class VerifRecKPerSample(mod.KPerSamplePlatePolicy):
+            def __init__(self, k: int):
+                super().__init__(k)
+
+            def filter_eligible_plates(self, batch_plates, unobserved_plates, rng):
+                entry = {"batch": [int(p.plate_id) for p in batch_plates], "unobs": [int(p.plate_id) for p in unobserved_plates], "k": self.k,
+                         "rng": rng is not None}
+                CLI_LOG.append(entry)
+                r = super().filter_eligible_plates(batch_plates, unobserved_plates, rng)
+                entry["eligible"] = [int(p.plate_id) for p in r]
+                return r
+        mod.VerifRecKPerSample = VerifRecKPerSample
+
+
+def call_select_cli(screen, desc, k, batch, eligible_hint, target, cli):
+    """class entry-point: the same call through `batchie.cli.select_next_plate.main()`: screen and scores are real files (the scores in
+    two files), the batch goes in as --batch-plate-id, the policy as --policy/--policy-param, the answer comes back in the output file.
+    Returns (eligible ids the POLICY computed from what it RECEIVED, error class, plate id in the output file | None)."""
+    import contextlib
+    import io
+    import os
+    from batchie.cli import select_next_plate as cli_mod
+    from batchie.scoring.main import ChunkedScoresHolder
+    from harness.c07 import quiet_cli
+    install_cli_policy()
+    d = cli["dir"]
+    data_fn, out_fn = os.path.join(d, "screen.h5"), os.path.join(d, "next.txt")
+    screen.save_h5(data_fn)
+    full = make_scores(desc, set(eligible_hint), target)
+    half = max(1, len(desc) // 2)
+    files = []
+    for part, sl in enumerate((slice(0, half), slice(half, None))):
+        ids_ = [dd[0] for dd in desc][sl]
+        if not ids_:
+            continue
+        h = ChunkedScoresHolder(size=len(ids_))
+        for pid in ids_:
+            h.add_score(pid, full.get_score(pid))
+        fn = os.path.join(d, "scores%d.h5" % part)
+        h.save_h5(fn)
+        files.append(fn)
+    CALLS[0] += 1
+    argv = ["select_next_plate", "--data", data_fn, "--scores"] + files + ["--policy", "VerifRecKPerSample", "--policy-param", "k=%d" % k,
+                                                                            "--output", out_fn, "--seed", str(CALLS[0] % 3)]
+    if batch:
+        argv += ["--batch-plate-id"] + [str(int(x)) for x in batch]
+    if cli.get("verbose"):
+        argv.append("--verbose")
+    del CLI_LOG[:]
+    if os.path.exists(out_fn):
+        os.unlink(out_fn)
+    try:
+        with quiet_cli(argv), contextlib.redirect_stdout(io.StringIO()):
+            cli_mod.main()
+    except BaseException as e:  # noqa  (argparse: SystemExit)
+        return (CLI_LOG[-1].get("eligible") if CLI_LOG else None), type(e).__name__, None
+    el = CLI_LOG[-1].get("eligible") if CLI_LOG else None
+    if CLI_LOG and sorted(CLI_LOG[-1]["batch"]) != sorted(int(x) for x in batch):
+        # what the policy RECEIVED as the batch is not the batch given on the command line: reported through the property's own clause
+        # (oracle_state judges `el` against the true batch), and recorded here for the message
+        cli["received_batch"] = CLI_LOG[-1]["batch"]
+    try:
+        with open(out_fn) as f:
+            ret = int(f.read().strip())
+    except Exception:  # noqa
+        ret = None
+    return el, None, (None if ret is None or ret < 0 else ret)
+
+
+def call_select(screen, desc, k, batch, eligible_hint=(), target=None, shared=None, np_ids=False, cli=None):
+    if cli is not None:
+        return call_select_cli(screen, desc, k, batch, eligible_hint, target, cli)
+    return _call_select(screen, desc, k, batch, eligible_hint, target, shared, np_ids)
+
+
+def _call_select(screen, desc, k, batch, eligible_hint=(), target=None, shared=None, np_ids=False):
     """real select_next_plate; returns (eligible ids | None, error class | None, returned plate id | None).
     `shared` = (policy, log): ONE policy object used for every call of a history (and of its later rounds); default a new one per call."""
     from batchie.scoring.main import select_next_plate
@@ -341,12 +423,43 @@ def count_opts_classes(res, opts, reuse):
 
 
 def run_history(ctx, res, plates, k, strat, rng, lines, expect, meta, max_len=40, picks=None, rounds=1, reuse=False, prior=None, opts=None):
+    """see _run_history; opts["verbose"]: the whole history under verbose logging; opts["cli"]: every call through select_next_plate.main()"""
+    import shutil
+    import tempfile
+    from vlib import common as _common
+    opts = dict(opts or {})
+    cli = None
+    tmpd = None
+    if opts.get("cli"):
+        tmpd = tempfile.mkdtemp(prefix="c16_")
+        cli = {"dir": tmpd, "verbose": bool(opts.get("verbose"))}
+    try:
+        if opts.get("verbose"):
+            with _common.verbose_logging():
+                return _run_history(ctx, res, plates, k, strat, rng, lines, expect, meta, max_len, picks, rounds, reuse, prior, opts, cli)
+        return _run_history(ctx, res, plates, k, strat, rng, lines, expect, meta, max_len, picks, rounds, reuse, prior, opts, cli)
+    finally:
+        if tmpd:
+            shutil.rmtree(tmpd, ignore_errors=True)
+
+
+def _run_history(ctx, res, plates, k, strat, rng, lines, expect, meta, max_len=40, picks=None, rounds=1, reuse=False, prior=None, opts=None, cli=None):
     """drive the real select_next_plate from the empty batch; returns number of states visited.
     rounds > 1: when a batch is finished its plates are marked observed with the real Screen.set_observed and the next batch starts
     from the empty batch on the SAME Screen object.  reuse: one policy object serves every call of every round.
     Replay: `prior` = the batches of the earlier rounds (followed pick by pick), `picks` = the picks of the last round."""
     opts = opts or {}
     screen = build_screen(plates, opts)
+    if cli is not None:
+        # the CLI works on the screen FILE: continue with the screen as it comes back from the file (ids as the CLI sees them)
+        import os as _os
+        from batchie.data import Screen as _Screen
+        screen.save_h5(_os.path.join(cli["dir"], "screen0.h5"))
+        screen = _Screen.load_h5(_os.path.join(cli["dir"], "screen0.h5"))
+        reuse = False          # every CLI call builds its own policy object
+        res.count("class.entry-point.select_next_plate")
+    if opts.get("verbose"):
+        res.count("class.verbose-logging")
     npi = bool(opts.get("np_ids"))
     shared = None
     if reuse:
@@ -371,12 +484,14 @@ def run_history(ctx, res, plates, k, strat, rng, lines, expect, meta, max_len=40
         case = {"kind": "history", "plates": plates, "k": k, "picks": [], "prior": [list(b) for b in done], "reuse": reuse, "opts": opts}
         stop = False
         while len(batch) <= max_len:
-            el, err, ret0 = call_select(screen, desc, k, batch, shared=shared, np_ids=npi)
+            el, err, ret0 = call_select(screen, desc, k, batch, shared=shared, np_ids=npi, cli=cli)
             states += 1
             res.evaluations += 1
             c = dict(case, picks=list(batch))
             ok = oracle_state(res, c, desc, k, batch, el, err, ret0) and check_mutations(res, c)
             count_state_classes(res, desc, k, batch, el)
+            if cli is not None and 0 in batch:
+                res.count("entry.select_next_plate.plate_id_0_in_batch")
             if lines is not None:
                 lines.append("select %d %s %s" % (k, plates_tok(desc), ids_tok(batch)))
                 expect.append("err:%s" % err if err else ids_tok(el))
@@ -409,7 +524,7 @@ def run_history(ctx, res, plates, k, strat, rng, lines, expect, meta, max_len=40
                 target = forced[len(batch)]
             else:
                 target = pick(rng, strat, desc, batch, el)
-            el2, err2, ret = call_select(screen, desc, k, batch, eligible_hint=el, target=target, shared=shared, np_ids=npi)
+            el2, err2, ret = call_select(screen, desc, k, batch, eligible_hint=el, target=target, shared=shared, np_ids=npi, cli=cli)
             if ret != target:       # which allowed plate wins is the scores' business (C06): tie, and this history cannot go on as planned
                 res.disagree("C16:best-eligible", {"case": dict(c, target=target)}, ret, target)
                 stop = True
@@ -518,11 +633,24 @@ def run(ctx, res):
         res.count("history.rounds%d" % rounds)
         res.count("history.policy_object_%s" % ("reused" if reuse else "fresh_per_call"))
         opts = gen_opts(rng, plates)
+        if t % 7 == 3:
+            opts["verbose"] = True
         run_history(ctx, res, plates, k, strat, rng, lines if t < ctx.scale(200, 600, 300) else None, expect, meta, rounds=rounds, reuse=reuse, opts=opts)
         res.traces_validated += 1
         if t < 2:
             res.sample({"kind": "history", "k": k, "counts": counts, "strategy": strat})
 
+    # ---------- A1. class entry-point: histories driven through batchie.cli.select_next_plate.main() (files, --batch-plate-id, --policy) ---
+    rng = ctx.subrng("cli")
+    for t in range(ctx.scale(14, 90, 40)):
+        S = rng.randint(2, 4)
+        k = [2, 2, 1, 3][t % 4]
+        counts = [rng.choice([k, k + 1, 2 * k, 1, 3]) for _ in range(S)]
+        plates = gen_plates(rng, counts, observed_frac=rng.choice([0.0, 0.2]), shuffle=(t % 2 == 1))
+        opts = gen_opts(rng, plates)
+        opts.update(cli=True, verbose=(t % 3 == 0), np_ids=False)
+        strat = ["lowest", "switch", "random", "lowest", "highest"][t % 5]     # "lowest": plate id 0 is picked first whenever it is allowed
+        run_history(ctx, res, plates, k, strat, rng, lines, expect, meta, max_len=6, rounds=rng.choice([1, 2]), reuse=False, opts=opts)
     # ---------- A2. class int-width: plate ids above 127 / 255 / 256 (264 plates, 6 samples x 44), two rounds --------------------
     rng = ctx.subrng("wide")
     for k in (2, 3):
@@ -538,7 +666,14 @@ def run(ctx, res):
     for v in vecs:
         for k in (1, 2, 3):
             plates = gen_plates(rng, v, shuffle=True)
-            explore_all(ctx, res, plates, k, lines, expect, meta, rng, line_rate=ctx.scale(0.05, 0.02, 0.02), opts=gen_opts(rng, plates))
+            eopts = gen_opts(rng, plates)
+            if (sum(v) + k) % 5 == 0:
+                eopts["verbose"] = True
+                res.count("class.verbose-logging")
+                with common.verbose_logging():
+                    explore_all(ctx, res, plates, k, lines, expect, meta, rng, line_rate=ctx.scale(0.05, 0.02, 0.02), opts=eopts)
+            else:
+                explore_all(ctx, res, plates, k, lines, expect, meta, rng, line_rate=ctx.scale(0.05, 0.02, 0.02), opts=eopts)
             res.count("exhaustive.screens")
 
     # ---------- C. multi-sample plates -----------------------------------------------------------
@@ -614,7 +749,10 @@ def run(ctx, res):
 
 def _quiet():
     import logging
-    logging.getLogger("batchie.scoring.main").setLevel(logging.CRITICAL)
+    # silence the "no eligible plates" warnings at the PACKAGE logger: a level set on the child logger would survive
+    # vlib.common.verbose_logging() and the CLI's --verbose, and hide code that only runs under debug logging
+    logging.getLogger("batchie.scoring.main").setLevel(logging.NOTSET)
+    logging.getLogger("batchie").setLevel(logging.CRITICAL)
 
 
 def replay(ctx, case, res):
